@@ -109,6 +109,32 @@ def configs(ctx):
                         if sz is not None:
                             cfg["sizes"] = {"SZ": sz}
                         work.append(cfg)
+    # affine Einsums whose *non-output* index ranks are shape-partitioned (no follower, hence no halos)
+    from mc.spec.build import E, T, times
+    d1 = {"I": ["W"], "F": ["S"], "O": ["Q"]}
+    e1 = E("O", ["q"], times(T("I", {"q": 1, "s": 1}), T("F", "s")))
+    e1b = E("O", ["q"], times(T("F", "s"), T("I", {"s": 1, "q": 2})))
+    for tagx, ex, ext in (("CV1", e1, {"Q": 2, "S": 3, "W": 4}), ("CV1s", e1b, {"Q": 2, "S": 3, "W": 5})):
+        for st in ([U2], [N2], [U2, "uniform_shape(1)"], [U3]):
+            groups = [["Q"], levels("S", len(st))]
+            for lo in [None] + monotone_orders(groups):
+                mapping = {"partitioning": {"O": {"S": list(st)}}}
+                if lo is not None:
+                    mapping["loop-order"] = {"O": lo}
+                work.append({"tag": "%s/S" % tagx, "spec": {"decl": d1, "exprs": [ex], "mapping": mapping}, "extents": [ext]})
+    d3 = {"I": ["W"], "F": ["S"], "G": ["V"], "O": ["Q"]}
+    e3 = E("O", ["q"], times(T("I", {"q": 1, "s": 1, "v": 1}), T("F", "s"), T("G", "v")))
+    for part in ({"S": [U2], "V": ["uniform_shape(1)"]}, {"S": [U2], "V": [U2]}, {"V": [N2]}):
+        groups = [["Q"]] + [levels(r, len(st)) if r in part else [r] for r, st in (("S", part.get("S")), ("V", part.get("V")))]
+        los = monotone_orders(groups)
+        if quick:
+            los = los[:: -(-len(los) // 8)]
+        for lo in [None] + los:
+            mapping = {"partitioning": {"O": {r: list(v) for r, v in part.items()}}}
+            if lo is not None:
+                mapping["loop-order"] = {"O": lo}
+            work.append({"tag": "CV3/" + "+".join(part), "spec": {"decl": d3, "exprs": [e3], "mapping": mapping},
+                         "extents": [{"Q": 2, "S": 2, "V": 2, "W": 4}]})
     return work
 
 
